@@ -3,7 +3,7 @@ use crate::util::Rng;
 use serde_json::Value;
 
 pub const LIB_NAME: &str = "m2";
-pub const LIB_TEXT: &str = "pub fn a(x) { x }\npub fn c() { 1 }\nfn p() { 2 }\npub type A { A(a: Int) C }\npub const k = 1\n";
+pub const LIB_TEXT: &str = "pub fn a(x) { x }\npub fn c() { 1 }\nfn p() { 2 }\npub type A { A(a: Int) C }\npub const k = 1\npub type T { W }\n";
 
 /// (declaration id in the specification, byte offset of the declaring name token in LIB_TEXT, length)
 pub fn lib_decls() -> Vec<(u64, usize, usize)> {
@@ -14,6 +14,7 @@ pub fn lib_decls() -> Vec<(u64, usize, usize)> {
         (2003, f("A(a: Int)", 0), 1),
         (2004, f(" C }", 1), 1),
         (2005, f("const k", 6), 1),
+        (2006, f("type T {", 5), 1),
     ]
 }
 
@@ -73,6 +74,9 @@ pub fn render(case: &Value, rng: &mut Rng, plain: bool) -> Program {
             idx: i + 1,
         });
     }
-    text.push('\n');
+    // the last token may be the very end of the file (no trailing newline)
+    if plain || rng.chance(1, 2) {
+        text.push('\n');
+    }
     Program { text, toks }
 }
